@@ -11,6 +11,7 @@ import (
 	"sort"
 	"strconv"
 	"strings"
+	"sync"
 	"testing"
 	"time"
 
@@ -312,6 +313,30 @@ func errString(err error) string {
 
 func tier() (thorough bool) { return ev.Tier() == "thorough" }
 
+// reportFail serialises ev.Fail: evaluations run on several goroutines and the
+// replay file of a failure must be written by one of them only.
+var (
+	failMu     sync.Mutex
+	failedOnce bool
+)
+
+func reportFail(tb ev.TB, kind, sig string, cas any, format string, args ...any) bool {
+	if _, pooled := tb.(*capTB); !pooled {
+		// the test goroutine itself (rapid re-evaluates while shrinking: every failure is recorded)
+		return ev.Fail(tb, kind, sig, cas, format, args...)
+	}
+	failMu.Lock()
+	defer failMu.Unlock()
+	if _, known := ev.IsKnown(sig); !known {
+		if failedOnce {
+			tb.Fatalf("another evaluation of this process already failed (this one: %s)", sig)
+			return true
+		}
+		failedOnce = true
+	}
+	return ev.Fail(tb, kind, sig, cas, format, args...)
+}
+
 // capTB lets an evaluation run outside the test goroutine: Fatalf unwinds the
 // evaluation and the message is re-raised by the caller in the test goroutine.
 type capTB struct{ msg string }
@@ -337,4 +362,17 @@ func inGoroutine(f func(tb ev.TB)) (failure string) {
 	}()
 	f(c)
 	return ""
+}
+
+// hangSlack is how long after its deadline a call may take to return before it
+// is reported as hanging (generous: the machine is shared).
+const hangSlack = 10 * time.Second
+
+func firstOracleFail(msgs []string) string {
+	for _, m := range msgs {
+		if strings.Contains(m, "ORACLE-FAIL") {
+			return m
+		}
+	}
+	return msgs[0]
 }
